@@ -183,8 +183,14 @@ impl Check {
         let mut machinery_failures: Vec<String> = vec![];
         for part in &self.parts {
             for n in &part.notes {
-                if n.starts_with("VACUOUS") || n.starts_with("MACHINERY") {
+                // A vacuity guard that fails on a part that completed is a defect of the machinery. On a
+                // part that was cut short by its wall cap (an overloaded machine) it only means that the
+                // part explored too little: reported in the evidence (`exhaustive: false`), not a failure.
+                let capped = !part.caps_hit.is_empty();
+                if (n.starts_with("VACUOUS") && !capped) || n.starts_with("MACHINERY") {
                     machinery_failures.push(format!("{}: {}", part.name, n));
+                } else if n.starts_with("VACUOUS") {
+                    eprintln!("note: {}: {} (the part hit its wall cap: {:?})", part.name, n, part.caps_hit);
                 }
             }
         }
